@@ -13,7 +13,11 @@
                   is one of those outcomes:  no update lost; compare-exchange
                   failed only when the object differed from `expected`, stored
                   the observed value there and left the object alone, succeeded
-                  only if it wrote; exchange returned the value it replaced.
+                  only if it wrote; exchange returned the value it replaced;
+                  the values atomic_fetch_* returned are explained by the same
+                  serial order (linearizability includes the results) - under
+                  the C11 convention (value before) or, for a whole execution,
+                  the pinned header's (value after: verdict "returns-new-value").
      Termination  every retry loop ends (weak fairness per thread).
    Several cases are batched in one TLC run (Init chooses the case); then the
    verdict of every quiescent state is written to IOEnv.OUT instead of
@@ -98,8 +102,16 @@ Flush(t) ==
 Quiescent == (\A t \in Threads : Done(th[t]) /\ buf[t] = <<>>)
 
 (* ---- Level A ---- *)
-Ops == [t \in Threads |-> [k \in 1..Case.reps |-> [v |-> Case.args[t][k][2], e |-> Case.args[t][k][3]]]]
-LinSet == Lin(Case.opk, Case.w, Case.sg, Ops, Case.init)
+(* Case.mix = 1: a mixed case - an operation whose third argument is non-zero is `+=` (the generated
+   function branches on it), the others are Case.opk.  conv = "new": atomic_fetch_* yield the value
+   after the operation (the pinned stdatomic.h) instead of the value before it (C11).              *)
+OpkOf(e, conv) == IF Case.mix = 1 /\ e # 0 THEN "add"
+                  ELSE IF conv = "new" /\ Case.opk \in FetchOld THEN Case.opk \o "_n"
+                  ELSE Case.opk
+OpsWith(conv) == [t \in Threads |-> [k \in 1..Case.reps |->
+                   [opk |-> OpkOf(Case.args[t][k][3], conv), v |-> Case.args[t][k][2], e |-> Case.args[t][k][3]]]]
+LinSet == Lin(Case.w, Case.sg, OpsWith("old"), Case.init)
+LinNew == Lin(Case.w, Case.sg, OpsWith("new"), Case.init)
 ObjVal == LET x == RdMem([T |-> th[1], mem |-> mem, b |-> <<>>], Case.obj, Case.w) IN Num(Case.w, x)
 Outcome == [mem |-> ObjVal, rets |-> [t \in Threads |-> th[t].rets]]
 (* Case.keep: bytes that must have their given value at quiescence: every shared byte outside
@@ -109,6 +121,7 @@ Errs == {th[t].err : t \in Threads} \ {""}
 Verdict ==
   IF Errs # {} THEN "model:" \o (CHOOSE e \in Errs : TRUE)
   ELSE IF Outcome \in LinSet /\ KeptOK THEN "ok"
+  ELSE IF Case.opk \in FetchOld /\ Outcome \in LinNew /\ KeptOK THEN "returns-new-value"
   ELSE IF Outcome.mem \notin {l.mem : l \in LinSet} THEN "lost-update"
   ELSE IF ~KeptOK THEN "other-bytes-changed"
   ELSE "wrong-result"
@@ -128,6 +141,6 @@ FairSpec == Spec /\ (\A t \in 1..MaxT : WF_vars(Step(t)) /\ WF_vars(Flush(t))) /
 
 (* ---- properties ---- *)
 NoModelError == \A t \in Threads : th[t].err = ""
-LinOK == fin => Verdict = "ok"
+LinOK == fin => Verdict \in {"ok", "returns-new-value"}
 Termination == <>fin
 =============================================================================
